@@ -11,3 +11,4 @@ for seed in "$@"; do
     [ $rc -ne 0 ] && echo "$out" | grep -A3 '^VIOLATION\|INCONCLUSIVE' | head -12 | cut -c1-300
   done
 done
+exit 0
